@@ -142,6 +142,9 @@ func (fv *FV) evalArgs(st *State, call *ast.CallExpr, sig *types.Signature) []Te
 func (fv *FV) callFunc(st *State, call *ast.CallExpr, callee *types.Func, sel *ast.SelectorExpr) []Term {
 	key := funcKey(callee)
 	sig := callee.Type().(*types.Signature)
+	if isig, ok := fv.info.TypeOf(call.Fun).(*types.Signature); ok && isig != nil {
+		sig = isig // instantiated signature of generic functions
+	}
 	if fc := fv.p.Contracts[key]; fc != nil {
 		return fv.applyContract(st, call, fc, sel, sig)
 	}
